@@ -366,7 +366,8 @@ func (s *Service) unblindProposal(ctx context.Context,
 	// goroutine does not mistake another's momentary hold for a block having been received.
 	var semMu sync.Mutex
 
-	respCh := make(chan *api.VersionedSignedProposal, 1)
+	// One slot per provider, so that a provider answering after the first never blocks on the send.
+	respCh := make(chan *api.VersionedSignedProposal, len(providers))
 	for _, provider := range providers {
 		go func(ctx context.Context, provider builderclient.UnblindedProposalProvider, ch chan *api.VersionedSignedProposal) {
 			log := s.log.With().Str("provider", provider.Address()).Logger()
